@@ -1,5 +1,5 @@
 (* C05 — executable model M of the exact-number paths of pkg/cl/{add,subtract,multiply,divide,floor,
-   ceiling,truncate,round,mod,rem,abs,oneplus,oneminus,gcd,lcm,lt,lte,gt,gte,same,logand,logior,logxor,
+   ceiling,truncate,round,mod,rem,abs,oneplus,oneminus,gcd,lcm,lt,lte,gt,gte,same,logand,logior,logxor,isqrt,
    lognot}.go and of
    normalizenumber.go for fixnum / bignum / ratio operands.
    int64 arithmetic is written with its wrap-around and with the overflow tests the code applies to it
@@ -502,9 +502,23 @@ Definition m_ext (mx : bool) (args : list val) : out :=
   {| o_res := match args with [] => RCond CArith | a :: rest => ext_loop (if mx then CLt else CGt) a rest end;
      o_args := args |}.
 
+(* ---- isqrt (pkg/cl/isqrt.go, after repo_fixes/C05-21, 23, 24): a fixnum goes through big.Int.Sqrt of a fresh
+   big.Int and comes back as a fixnum (the unchanged code took math.Sqrt of the float64, off by one from 2^53
+   on); a bignum object goes through big.Int.Sqrt into a FRESH big.Int (the unchanged code used the operand as
+   the receiver and so overwrote it) and the result is a bignum object whatever its size; a negative integer of
+   either representation is an arithmetic-error (the unchanged code let math/big panic on a negative bignum).
+   Ratios and floats (truncated float root) are not modelled.  The operand is returned as it was. ---- *)
+Definition m_isqrt (args : list val) : out :=
+  match args with
+  | [VFix z] => {| o_res := if z <? 0 then RCond CArith else RVal (VFix (Z.sqrt z)); o_args := args |}
+  | [VBig z] => {| o_res := if z <? 0 then RCond CArith else RVal (VBig (Z.sqrt z)); o_args := args |}
+  | _ => {| o_res := RVal VInexact; o_args := args |}
+  end.
+
 Inductive opn :=
 | OAdd | OSub | OMul | ODiv | ORound (m : rounding) | OMod | ORem | OAbs | OInc | ODec | OGcd | OLcm | OCmp (c : cmp)
-| OBit (b : bitop) | OLognot | OExt (mx : bool).      (* OExt true = max, OExt false = min *)
+| OBit (b : bitop) | OLognot | OExt (mx : bool)      (* OExt true = max, OExt false = min *)
+| OIsqrt.
 
 Definition m_op (o : opn) (args : list val) : out :=
   match o with
@@ -514,4 +528,5 @@ Definition m_op (o : opn) (args : list val) : out :=
   | OCmp c => m_cmp c args
   | OBit b => m_bit b args | OLognot => m_lognot args
   | OExt mx => m_ext mx args
+  | OIsqrt => m_isqrt args
   end.
